@@ -327,7 +327,9 @@ Section ENGINE.
          if String.eqb x EmptyString then Ok e
          else match pfloat x with None => Ok e | Some f => Ok (set_val e f) end.
 
-  (* planner_drop.go: the fingerprint is recomputed only when a label was removed *)
+  (* planner_drop.go: the fingerprint is always recomputed (after the fix; before it only when a label was removed, so an
+     entry that lost nothing kept its incoming ClickHouse fingerprint and stayed apart from an entry reaching the same
+     label set by a deletion) *)
   Fixpoint drop_hit (k v : string) (names vals : list string) : bool :=
     match names, vals with
     | n :: nr, x :: xr => (String.eqb k n && (String.eqb x EmptyString || String.eqb v x)) || drop_hit k v nr xr
@@ -338,8 +340,7 @@ Section ENGINE.
     | None => Ok e
     | Some m =>
       let m' := filter (fun kv => negb (drop_hit (fst kv) (snd kv) names vals)) m in
-      if Nat.eqb (List.length m') (List.length m) then Ok e
-      else Ok (set_fp (set_lbl e (Some m')) (fpf m'))
+      Ok (set_fp (set_lbl e (Some m')) (fpf m'))
     end.
 
   (* planner_by_without.go *)
